@@ -691,6 +691,66 @@ func registerStubs(w *World) {
 	S["strings.IndexByte"] = func(in *Interp, fn *ssa.Function, a []Value) Value {
 		return IntC(int64(in.strIndex(a[0].(*StrV), StrFromBytes([]*Term{a[1].(*Term)}), false)))
 	}
+	strSlice := func(in *Interp, parts []*StrV) Value {
+		arr := &ArrayV{Elems: make([]Value, len(parts)), Org: in.org(), ET: in.W.TString}
+		for i, p := range parts {
+			arr.Elems[i] = p
+		}
+		return SliceV{Arr: arr, Len: len(parts), Cap: len(parts)}
+	}
+	splitN := func(in *Interp, s, sep *StrV, n int) Value {
+		in.needBytes(s, "Split")
+		in.needBytes(sep, "Split")
+		if n == 0 {
+			return SliceV{}
+		}
+		var parts []*StrV
+		if sep.Len() == 0 {
+			pos := 0
+			for pos < s.Len() && (n < 0 || len(parts) < n-1) {
+				_, sz := in.decodeRune(s, pos)
+				parts = append(parts, s.Slice(pos, pos+sz))
+				pos += sz
+			}
+			if pos < s.Len() {
+				parts = append(parts, s.Slice(pos, s.Len()))
+			}
+			return strSlice(in, parts)
+		}
+		rest := s
+		for n < 0 || len(parts) < n-1 {
+			i := in.strIndex(rest, sep, false)
+			if i < 0 {
+				break
+			}
+			parts = append(parts, rest.Slice(0, i))
+			rest = rest.Slice(i+sep.Len(), rest.Len())
+		}
+		parts = append(parts, rest)
+		return strSlice(in, parts)
+	}
+	S["strings.Split"] = func(in *Interp, fn *ssa.Function, a []Value) Value {
+		return splitN(in, a[0].(*StrV), a[1].(*StrV), -1)
+	}
+	S["strings.SplitN"] = func(in *Interp, fn *ssa.Function, a []Value) Value {
+		n, ok := a[2].(*Term).Int64Val()
+		if !ok {
+			in.unsupported("SplitN with symbolic count")
+		}
+		return splitN(in, a[0].(*StrV), a[1].(*StrV), int(n))
+	}
+	S["strings.Join"] = func(in *Interp, fn *ssa.Function, a []Value) Value {
+		sl := a[0].(SliceV)
+		sep := a[1].(*StrV)
+		var out *StrV = ConcStr("")
+		for i := 0; i < sl.Len; i++ {
+			if i > 0 {
+				out = in.strConcat(out, sep)
+			}
+			out = in.strConcat(out, sl.Arr.Elems[sl.Off+i].(*StrV))
+		}
+		return out
+	}
 	S["strings.Contains"] = func(in *Interp, fn *ssa.Function, a []Value) Value {
 		s, sub := a[0].(*StrV), a[1].(*StrV)
 		in.needBytes(s, "Contains")
@@ -1078,7 +1138,23 @@ func registerStubs(w *World) {
 	S["encoding/json.Unmarshal"] = func(in *Interp, fn *ssa.Function, a []Value) Value {
 		data, ok := in.concBytes(a[0])
 		if !ok {
-			in.unsupported("json.Unmarshal of symbolic bytes")
+			// symbolic bytes: only JSON strings are modelled
+			target := in.force(a[1])
+			et := target.T.(*types.Pointer).Elem()
+			sl := a[0].(SliceV)
+			if sl.Arr == nil || sl.Arr.Abs != nil || !types.Identical(et, in.W.TString) {
+				in.unsupported("json.Unmarshal of symbolic bytes (non-string target)")
+			}
+			bs := make([]*Term, sl.Len)
+			for i := range bs {
+				bs[i] = sl.Arr.Elems[sl.Off+i].(*Term)
+			}
+			out, ok := in.jsonDecodeString(bs)
+			if !ok {
+				return in.nativeErr(errors.New("invalid character in string literal"))
+			}
+			in.store(target.V.(PtrV).R, StrFromBytes(out))
+			return NilIface
 		}
 		target := in.force(a[1])
 		p := target.V.(PtrV)
@@ -1111,20 +1187,60 @@ func registerStubs(w *World) {
 		rs := rp.R.Load().(*StructV)
 		src, ok := in.concStr(rs.Fields[0])
 		if !ok {
-			in.unsupported("json decoder over symbolic text")
+			sv, isStr := rs.Fields[0].(*StrV)
+			if !isStr || sv.Sym == nil {
+				in.unsupported("json decoder over abstract text")
+			}
+			return PtrV{&Cell{V: &NativeV{Kind: "symjsondecoder", V: &symJSONDecoder{src: sv}}, Org: in.org()}}
 		}
 		d := json.NewDecoder(strings.NewReader(src))
 		return PtrV{&Cell{V: &NativeV{Kind: "jsondecoder", V: d}, Org: in.org()}}
 	}
 	decOf := func(in *Interp, v Value) *json.Decoder {
-		return v.(PtrV).R.Load().(*NativeV).V.(*json.Decoder)
+		d, ok := v.(PtrV).R.Load().(*NativeV).V.(*json.Decoder)
+		if !ok {
+			in.unsupported("operation on a symbolic JSON decoder")
+		}
+		return d
+	}
+	symDec := func(v Value) *symJSONDecoder {
+		d, _ := v.(PtrV).R.Load().(*NativeV).V.(*symJSONDecoder)
+		return d
 	}
 	S["(*encoding/json.Decoder).UseNumber"] = func(in *Interp, fn *ssa.Function, a []Value) Value {
+		if sd := symDec(a[0]); sd != nil {
+			sd.useNumber = true
+			return nil
+		}
 		decOf(in, a[0]).UseNumber()
 		return nil
 	}
 	S["(*encoding/json.Decoder).Decode"] = func(in *Interp, fn *ssa.Function, a []Value) Value {
 		target := in.force(a[1])
+		if sd := symDec(a[0]); sd != nil {
+			if sd.done {
+				return in.nativeErr(io.EOF)
+			}
+			sd.done = true
+			// only JSON string texts are modelled symbolically
+			bs := sd.src.Bytes()
+			i := 0
+			for i < len(bs) && in.branch(Or(Eq(bs[i], IntC(' ')), Eq(bs[i], IntC('\t')), Eq(bs[i], IntC('\n')), Eq(bs[i], IntC('\r')))) {
+				i++
+			}
+			if i >= len(bs) {
+				return in.nativeErr(io.EOF)
+			}
+			if !in.branch(Eq(bs[i], IntC('"'))) {
+				in.unsupported("symbolic JSON text that is not a string")
+			}
+			out, ok := in.jsonDecodeString(bs)
+			if !ok {
+				return in.nativeErr(errors.New("invalid JSON string"))
+			}
+			in.store(target.V.(PtrV).R, IfaceV{T: in.W.TString, V: StrFromBytes(out)})
+			return NilIface
+		}
 		var v interface{}
 		err := decOf(in, a[0]).Decode(&v)
 		if err == nil {
@@ -1139,6 +1255,10 @@ func registerStubs(w *World) {
 		return IntC(decOf(in, a[0]).InputOffset())
 	}
 	S["(*encoding/json.Decoder).Token"] = func(in *Interp, fn *ssa.Function, a []Value) Value {
+		if sd := symDec(a[0]); sd != nil {
+			// the modelled string decode consumes the whole text
+			return TupleV{NilIface, in.nativeErr(io.EOF)}
+		}
 		_, err := decOf(in, a[0]).Token()
 		// the token value itself is never used by the code under test
 		return TupleV{NilIface, in.nativeErr(err)}
@@ -1448,4 +1568,145 @@ func (in *Interp) findMethod(t types.Type, name string) *ssa.Function {
 		return nil
 	}
 	return in.W.Prog.MethodValue(sel)
+}
+
+type symJSONDecoder struct {
+	src       *StrV
+	useNumber bool
+	done      bool
+}
+
+// jsonDecodeString models encoding/json's decoding of one JSON string text
+// (with optional surrounding JSON whitespace) over symbolic bytes.
+func (in *Interp) jsonDecodeString(b []*Term) ([]*Term, bool) {
+	isWS := func(t *Term) *Term {
+		return Or(Eq(t, IntC(' ')), Eq(t, IntC('\t')), Eq(t, IntC('\n')), Eq(t, IntC('\r')))
+	}
+	i, n := 0, len(b)
+	for i < n && in.branch(isWS(b[i])) {
+		i++
+	}
+	for n > i && in.branch(isWS(b[n-1])) {
+		n--
+	}
+	if n-i < 2 || !in.branch(Eq(b[i], IntC('"'))) || !in.branch(Eq(b[n-1], IntC('"'))) {
+		return nil, false
+	}
+	i++
+	n--
+	var out []*Term
+	hex := func(t *Term) (*Term, bool) {
+		k := in.decide("hexdigit", []*Term{
+			And(Ge(t, IntC('0')), Le(t, IntC('9'))),
+			And(Ge(t, IntC('a')), Le(t, IntC('f'))),
+			And(Ge(t, IntC('A')), Le(t, IntC('F'))),
+			Not(Or(And(Ge(t, IntC('0')), Le(t, IntC('9'))), And(Ge(t, IntC('a')), Le(t, IntC('f'))), And(Ge(t, IntC('A')), Le(t, IntC('F'))))),
+		})
+		switch k {
+		case 0:
+			return Sub(t, IntC('0')), true
+		case 1:
+			return Sub(t, IntC('a'-10)), true
+		case 2:
+			return Sub(t, IntC('A'-10)), true
+		}
+		return nil, false
+	}
+	u4 := func(p int) (*Term, bool) {
+		if p+4 > n {
+			return nil, false
+		}
+		v := IntC(0)
+		for k := 0; k < 4; k++ {
+			h, ok := hex(b[p+k])
+			if !ok {
+				return nil, false
+			}
+			v = Add(Mul(v, IntC(16)), h)
+		}
+		return v, true
+	}
+	for i < n {
+		c := b[i]
+		k := in.decide("jsonchar", []*Term{Eq(c, IntC('"')), Eq(c, IntC('\\')), Lt(c, IntC(0x20)), And(Ge(c, IntC(0x20)), Not(Eq(c, IntC('"'))), Not(Eq(c, IntC('\\'))))})
+		switch k {
+		case 0, 2:
+			return nil, false
+		case 3:
+			// literal byte; (invalid UTF-8 would be replaced by U+FFFD - inputs here are valid UTF-8)
+			out = append(out, c)
+			i++
+			continue
+		}
+		// escape
+		if i+1 >= n {
+			return nil, false
+		}
+		e := b[i+1]
+		ev, ok := e.Int64Val()
+		if !ok {
+			// symbolic escape letter: decide among the legal ones
+			legal := []int64{'"', '\\', '/', 'b', 'f', 'n', 'r', 't', 'u'}
+			var alts []*Term
+			var none []*Term
+			for _, l := range legal {
+				alts = append(alts, Eq(e, IntC(l)))
+				none = append(none, Not(Eq(e, IntC(l))))
+			}
+			alts = append(alts, And(none...))
+			kk := in.decide("jsonesc", alts)
+			if kk == len(legal) {
+				return nil, false
+			}
+			ev = legal[kk]
+		}
+		i += 2
+		switch ev {
+		case '"', '\\', '/':
+			out = append(out, IntC(ev))
+		case 'b':
+			out = append(out, IntC(8))
+		case 'f':
+			out = append(out, IntC(12))
+		case 'n':
+			out = append(out, IntC(10))
+		case 'r':
+			out = append(out, IntC(13))
+		case 't':
+			out = append(out, IntC(9))
+		case 'u':
+			r, ok := u4(i)
+			if !ok {
+				return nil, false
+			}
+			i += 4
+			hi := And(Ge(r, IntC(0xD800)), Le(r, IntC(0xDBFF)))
+			lo := And(Ge(r, IntC(0xDC00)), Le(r, IntC(0xDFFF)))
+			switch in.decide("surrogate", []*Term{hi, lo, Not(Or(hi, lo))}) {
+			case 0:
+				// needs \uDC00-\uDFFF next, otherwise U+FFFD
+				paired := false
+				if i+6 <= n && in.branch(And(Eq(b[i], IntC('\\')), Eq(b[i+1], IntC('u')))) {
+					r2, ok := u4(i + 2)
+					if !ok {
+						return nil, false
+					}
+					if in.branch(And(Ge(r2, IntC(0xDC00)), Le(r2, IntC(0xDFFF)))) {
+						i += 6
+						r = Add(IntC(0x10000), Add(Mul(Sub(r, IntC(0xD800)), IntC(1024)), Sub(r2, IntC(0xDC00))))
+						paired = true
+					}
+				}
+				if !paired {
+					r = IntC(0xFFFD)
+				}
+			case 1:
+				r = IntC(0xFFFD)
+			}
+			out = append(out, in.encodeRune(r)...)
+		default:
+			return nil, false
+		}
+	}
+	return out, true
 }
